@@ -369,8 +369,77 @@ def _sl(cfg, v):
     return dict(cfg["slices"])
 
 
+def job_ground_params(ctx: Ctx):
+    """float code, parameters outside the symbolic bound (non-integer and large exponents, wide parameter ranges), every class and its inverse wrapper:
+    round trips and every derivative method vs central differences of the next-lower method at random interior points.  Ground enumeration."""
+    rt = _load()
+    import warnings
+    warnings.simplefilter("ignore")
+    ctx.encoded(rt.BaseTransform.deriv_inverse, rt.BaseTransform.deriv2_inverse, rt.BaseTransform.deriv3_inverse, rt.InverseRTransform)
+    rng = np.random.default_rng(harness.seed() + 31)
+    bad = {}
+    with unpatched(rt):
+        unit = lambda: rng.uniform(-0.85, 0.85, 5)
+        half = lambda b: rng.uniform(0.05 * b, 0.9 * b, 5)
+        cases = []
+        for k in (1, 2.5, 5, 9):
+            cases.append((f"Knowles(k={k})", lambda k=k: rt.KnowlesRTransform(0.05, 1.7, k), unit))
+        for m in (1, 1.5, 4, 8):
+            cases.append((f"Handy(m={m})", lambda m=m: rt.HandyRTransform(0.05, 1.7, m), unit))
+        for m in (1, 2.5, 4):
+            cases.append((f"HandyMod(m={m})", lambda m=m: rt.HandyModRTransform(0.05, 40.0, m), unit))
+        cases += [("Becke", lambda: rt.BeckeRTransform(1e-3, 2.3), unit), ("MultiExp", lambda: rt.MultiExpRTransform(1e-3, 2.3), unit), ("LinearFinite", lambda: rt.LinearFiniteRTransform(-3.0, 11.0), unit),
+                  ("Identity", lambda: rt.IdentityRTransform(), lambda: half(5.0)), ("LinearInfinite", lambda: rt.LinearInfiniteRTransform(0.01, 90.0, b=30), lambda: half(30)),
+                  ("Exp", lambda: rt.ExpRTransform(0.01, 90.0, b=30), lambda: half(30)), ("Power", lambda: rt.PowerRTransform(0.01, 90.0, b=30), lambda: half(30)),
+                  ("Hyperbolic", lambda: rt.HyperbolicRTransform(0.7, 0.02), lambda: half(30))]
+        for name, mk, pts in cases:
+            for wrapped in (False, True):
+                try:
+                    tf0 = mk()
+                    x = pts()
+                    u0 = x
+                    if wrapped:
+                        tf, x = rt.InverseRTransform(tf0), tf0.transform(x)
+                    else:
+                        tf = tf0
+                    def fd(f, z, step):
+                        """Richardson-extrapolated central difference and an error estimate from the two step sizes"""
+                        d1_ = (f(z + step) - f(z - step)) / (2 * step)
+                        d2_ = (f(z + step / 2) - f(z - step / 2)) / step
+                        rich = (4 * d2_ - d1_) / 3
+                        return rich, np.abs(d2_ - d1_) + 1e-9 * np.abs(rich)
+
+                    def rel(method_val, f, z, step, scale):
+                        ref, est = fd(f, z, step)
+                        return np.max((np.abs(method_val - ref) - 20 * est) / np.maximum(np.abs(ref), scale))      # <= tol means: within 20 x the FD uncertainty + tol
+                    h = 1e-4 * np.maximum(1e-2, np.minimum(np.abs(x - x.min() + 0.05), 1.0))
+                    if wrapped:     # the variable lives in the image of the wrapped map: stay inside the image of [u - d, u + d]
+                        d_ = 1e-4
+                        h = 0.5 * np.minimum(np.abs(tf0.transform(u0 + d_) - x), np.abs(x - tf0.transform(u0 - d_)))
+                    r = tf.transform(x)
+                    errs = dict(inverse_of_transform=np.max(np.abs(tf.inverse(r) - x) / np.maximum(1, np.abs(x))))
+                    s1 = 1e-6 * np.max(np.abs(tf.deriv(x)))
+                    errs["deriv"] = rel(tf.deriv(x), tf.transform, x, h, s1)
+                    errs["deriv2"] = rel(tf.deriv2(x), tf.deriv, x, h, s1)
+                    errs["deriv3"] = rel(tf.deriv3(x), tf.deriv2, x, h, s1)
+                    # step in r that stays inside the image of [x - h, x + h] (monotone map)
+                    hr = 0.5 * np.minimum(np.abs(tf.transform(x + h) - r), np.abs(r - tf.transform(x - h)))
+                    s2 = 1e-6 * np.max(np.abs(tf.deriv_inverse(r)))
+                    errs["deriv_inverse"] = rel(tf.deriv_inverse(r), tf.inverse, r, hr, s2)
+                    errs["deriv2_inverse"] = rel(tf.deriv2_inverse(r), tf.deriv_inverse, r, hr, s2)
+                    errs["deriv3_inverse"] = rel(tf.deriv3_inverse(r), tf.deriv2_inverse, r, hr, s2)
+                    worst = {k: float(v) for k, v in errs.items() if not v <= 1e-4}
+                    if worst:
+                        bad[name + ("/InverseRTransform" if wrapped else "")] = worst
+                except Exception as ex:
+                    bad[name + ("/InverseRTransform" if wrapped else "")] = f"{type(ex).__name__}: {str(ex)[:100]}"
+    (ctx.ok if not bad else ctx.fail)("float code: round trips and all derivative methods vs central differences for non-integer / large exponents and wide parameters (12 classes + inverse wrapper)",
+                                      detail=str(bad)[:400], key="transforms:float-params", how="ground enumeration (not a solver obligation)", replay=(lambda m: (True, dict(list(bad.items())[:6]))), **({} if not bad else dict(model={})))
+    ctx.twins_sat += 1
+
+
 def jobs(tier):
-    js = []
+    js = [Job("ground/float-params", job_ground_params)]
     for cfg in configs(tier):
         js.append(Job(cfg["name"], job_class, cfg))
         if tier == "thorough" or cfg["fk"] in (None, 1):
@@ -395,7 +464,7 @@ def main():
         PROP, res, t0, "DESIGN.md#c03",
         bounds=dict(classes=12, integer_exponents="k,m in 1..4 (quick) / 1..6 (Knowles, Handy), 1..3 / 1..5 (HandyMod)", x="one symbolic interior point per call (arrays of length 1 and 2)",
                     parameters="all reals under the documented precondition; HandyMod additionally rmax-rmin > 2^m-1"),
-        outside=["non-integer exponents k, m (general real power)", "derivatives / inverses evaluated exactly on the domain boundary",
+        outside=["non-integer exponents k, m are not part of the solver claim (sampled by the ground job ground/float-params on the float code)", "derivatives / inverses evaluated exactly on the domain boundary",
                  "IEEE rounding: float arithmetic is read as exact real arithmetic", "HandyMod with rmax-rmin <= 2^m-1 (denominator vanishes inside the domain)"],
         assumptions=["denominators of the executed expressions are non-zero (identities claimed where the implementation's expression is defined)",
                      "exp/log are mutually inverse strictly monotone functions (axioms listed in symgrid/smt.py)"])
